@@ -166,6 +166,11 @@ func (ft *FuncTr) sortSlice(st *State, at *Term, in ssa.Instruction, c *ssa.Call
 			vars[fv.Name()] = bindSV(less.Binds[bi], fv)
 		}
 		envL := &SpecEnv{h: ft.h, w: ft.w, pkg: ft.w.pkgOfFunc(less.Fn), vars: vars, st: arb, old: arb, qn: &ft.qn}
+		if less.Fn.Parent() == ft.fn {
+			// names the comparator does not capture denote this function's variables at the call
+			envL.ft = ft
+			envL.pos = pos
+		}
 		lv, err := envL.trBool(&EBinary{"==", &EBool{true}, lessE})
 		if err != nil {
 			return Val{}, fmt.Errorf("comparator contract: %v", err)
